@@ -136,7 +136,9 @@ Lemma norm_keeps fuel now : forall r, good r ->
   good (norm c ivl eps fin fuel now r) /\ visl (norm c ivl eps fin fuel now r) = visl r.
 Proof.
   induction fuel as [|f IH]; cbn [norm]; intros r Hg; [split; [assumption|reflexivity]|].
-  destruct (pass_keeps now r Hg) as [G V]. destruct (IH _ G) as [G' V']. split; [exact G'|]. rewrite V'. exact V.
+  destruct (pass_keeps now r Hg) as [G V].
+  destruct (length (lbl (pass c ivl eps fin now r)) =? length (lbl r)); [split; [exact G|exact V]|].
+  destruct (IH _ G) as [G' V']. split; [exact G'|]. rewrite V'. exact V.
 Qed.
 
 Lemma feed_good r e r' : good r -> feed c ivl eps fin r e = Some r' -> good r' /\ visl r' = visl r ++ [untime e].
